@@ -18,6 +18,9 @@
 (*   create_sec(h,c,n)    h = c.create_section(n)                          *)
 (*   create_prop(h,c,n)   h = c.create_property(n)                         *)
 (*   create_prop_badvals(h,c,n)  the same with values the library refuses  *)
+(*   new_id(x,y)          x.new_id() (y = "none") / x.new_id(y.id): the id *)
+(*                        changes, nothing else - an unnamed object keeps  *)
+(*                        the name it has (the id it was born with)        *)
 (***************************************************************************)
 EXTENDS OdmlWorld
 
@@ -100,14 +103,17 @@ Post(w, op) ==
               Ok(AttachAt(w1, c, Min(op.i, LenOf(w1, c, op.x)), op.x))
     [] op.name = "rename" ->
          IF w.kind[op.x] = "doc" THEN Refuse(w)
-         ELSE IF NameTok(op.n, op.x) = w.name[op.x] THEN Ok(w)
-         ELSE IF op.n \in {NONE, "empty"} THEN Ok([w EXCEPT !.name[op.x] = NameTok(NONE, op.x)])
-         ELSE IF w.par[op.x] # NONE /\ NameClash(w, w.par[op.x], op.x, op.n) THEN Refuse(w)
-         ELSE Ok([w EXCEPT !.name[op.x] = op.n])
+         \* clearing the name makes the current id the name: token "#x" unless the observation says which id x
+         \* carries by now (op.idn, histories with new_id); it goes through the sibling check like any other name
+         ELSE LET nn == IF op.n \in {NONE, "empty"} THEN (IF "idn" \in DOMAIN op THEN op.idn ELSE NameTok(NONE, op.x)) ELSE op.n IN
+              IF nn = w.name[op.x] THEN Ok(w)
+              ELSE IF w.par[op.x] # NONE /\ NameClash(w, w.par[op.x], op.x, nn) THEN Refuse(w)
+              ELSE Ok([w EXCEPT !.name[op.x] = nn])
     [] op.name = "new_sec"  -> CtorPost(w, op.h, "sec", op.n, op.c, op.card)
     [] op.name = "new_prop" -> CtorPost(w, op.h, "prop", op.n, op.c, op.card)
     [] op.name = "create_sec"  -> CtorPost(w, op.h, "sec", op.n, op.c, "none")
     [] op.name = "create_prop" -> CtorPost(w, op.h, "prop", op.n, op.c, "none")
+    [] op.name = "new_id" -> Ok(w)
     [] op.name = "create_prop_badvals" -> Refuse(w)        \* values that cannot be stored (mixed types): no Property appears
     [] OTHER -> {}
 
